@@ -50,7 +50,7 @@ def insn_st(isa, names):
     )
 
 
-def block_st(isa, cfg, data_ok=True):
+def block_st(isa, cfg, data_ok=True, only_data=False):
     ords = _ord_names(isa)
     terms = _term_names(isa) if cfg else []
     maxi = 4
@@ -76,6 +76,8 @@ def block_st(isa, cfg, data_ok=True):
         "ne": st.sampled_from([0, 0, 1]),
         "notes": st.lists(st.integers(0, 40), max_size=3),
     })
+    if only_data:
+        return data
     if not data_ok:
         return code
     return st.one_of(code, code, code, data)
@@ -101,17 +103,26 @@ def edit_st(isa, cfg):
     return st.one_of(ins, ins, rep, dele, dele)
 
 
+_ST_CACHE = {}
+
+
 def case_st(tier, pairs=None, cfg=True, max_edits=None, min_edits=1):
     pairs = pairs or I.PAIRS
     nb = 6 if tier == "quick" else 10
     ne = max_edits or (5 if tier == "quick" else 9)
 
     def build(pair):
+        key = (pair, tier, cfg, ne, min_edits)
+        if key not in _ST_CACHE:
+            _ST_CACHE[key] = _build(pair)
+        return _ST_CACHE[key]
+
+    def _build(pair):
         isa, fmt = pair
         use_cfg = cfg and isa != "mips32"
         blk = block_st(isa, use_cfg)
         sec0 = st.fixed_dictionaries({"name": st.just(".text"), "blocks": st.lists(blk, min_size=1, max_size=nb)})
-        datablk = block_st(isa, use_cfg).filter(lambda b: not b["code"])
+        datablk = block_st(isa, use_cfg, only_data=True)
         sec1 = st.fixed_dictionaries({"name": st.just(".data"), "blocks": st.lists(datablk, min_size=1, max_size=3)})
         sec2 = st.fixed_dictionaries({"name": st.just(".text2"), "blocks": st.lists(blk, min_size=1, max_size=3)})
         secs = st.tuples(sec0, st.one_of(st.none(), sec1), st.one_of(st.none(), st.none(), sec2)).map(
@@ -806,9 +817,13 @@ class Run:
 def execute(spec, *, allow_after_full_delete=False, record=None) -> Run:
     r = Run()
     r.case = Case(spec, allow_after_full_delete=allow_after_full_delete)
-    r.built = build(r.case)
     r.exp = Expected(r.case)
+    r.excluded = out_of_domain(r.case, r.exp)
     r.error = None
+    r.obs = None
+    if r.excluded:
+        return r
+    r.built = build(r.case)
     try:
         rewrite(r.case, r.built, record)
     except Exception as e:  # judged by the caller
@@ -850,13 +865,47 @@ def describe(case: Case):
 
 
 def call_at_section_end(case: Case) -> bool:
-    """Signature of finding C01-call-at-section-end: after the edits some
-    section ends in a patch-inserted direct call to a module function (its
-    return site is the end of the section, which needs a zero-sized block)."""
+    """Signature of finding C01-call-at-section-end: after the edits a patch
+    leaves a position that is not followed by code (end of section, or data
+    follows) but must stay addressable as a code position: the return site of
+    a patch-inserted direct call to a module function, or a patch label that a
+    patch branch/call targets.  The zero-sized continuation block cannot be
+    removed and _cleanup_modified_blocks asserts."""
     exp = Expected(case)
-    for insns in exp.insns:
-        if insns:
-            u = insns[-1].unit
-            if u.origin and u.origin[0] == "patch" and u.kind == "call" and u.sym not in case.externs:
+    for si, insns in enumerate(exp.insns):
+        nocode = {len(exp.sec_bytes[si])}
+        for k, e in enumerate(insns):
+            if e.unit.kind == "data":
+                nocode.add(e.pos)
+        for k, e in enumerate(insns):
+            u = e.unit
+            if not (u.origin and u.origin[0] == "patch"):
+                continue
+            end = e.pos + len(u.data)
+            if u.kind == "call" and u.sym not in case.externs and end in nocode:
                 return True
+            if u.kind in ("jmp", "jcc", "call") and u.sym in exp.patch_labels:
+                lsi, lpos, _t = exp.patch_labels[u.sym]
+                if lsi == si and lpos in nocode:
+                    return True
     return False
+
+
+def out_of_domain(case: Case, exp: "Expected") -> Optional[str]:
+    """Cases outside every rewrite property's domain (returned as the name of
+    the excluded class): a patch branch/call whose target module label ends up
+    at a position that is not followed by code (control flow into data / off
+    the end of a section cannot be represented: the assembler refuses it)."""
+    code_pos = [set() for _ in exp.insns]
+    for si, insns in enumerate(exp.insns):
+        for e in insns:
+            if e.unit.kind != "data":
+                code_pos[si].add(e.pos)
+    for si, insns in enumerate(exp.insns):
+        for e in insns:
+            u = e.unit
+            if u.origin and u.origin[0] == "patch" and u.kind in ("jmp", "jcc", "call") and u.sym in exp.labels:
+                tgt = exp.labels[u.sym]
+                if tgt[0] == "pos" and tgt[2] not in code_pos[tgt[1]]:
+                    return "patch-branch-to-noncode-position"
+    return None
